@@ -206,3 +206,12 @@ def match_rows(out_vals, in_vals):
                 break
         res.append(hit)
     return res
+
+
+def to_int(x):
+    """int(x) (truncation) for concrete and symbolic numbers; concretises by forking."""
+    if is_sym(x):
+        from models import npmodel
+        v = npmodel.f_cast(x, int)
+        return core.concretize_int(v) if is_sym(v) else v
+    return int(x)
